@@ -34,7 +34,7 @@ LEVEL_TEXT = (
 LEVEL_NOTE = "Trusted: Python float modulo (exact on the lattice), fractions for the width/representability decision off-lattice."
 TECHNIQUE = "runtime postcondition monitor with an exact modular-arithmetic oracle plus verde.inside applied to the returned values; exhaustive 5-degree lattice + seeded off-lattice and rejection workload"
 FLOORS = {
-    "quick": {"eval:region": 12000, "eval:longitudes": 12000, "eval:inside": 12000, "eval:rejection": 300, "distinct_nontrivial": 2500, "eval:forms": 40, "class:longitude_subset_calls": 8000, "class:mixed_dtype_coordinates": 40, "class:point_spelling_python": 150, "class:point_spelling_zero_d": 150, "class:invalid_value_among_undefined": 15},
+    "quick": {"eval:region": 12000, "eval:longitudes": 12000, "eval:inside": 12000, "eval:rejection": 300, "distinct_nontrivial": 2500, "eval:forms": 40, "class:longitude_subset_calls": 8000, "class:mixed_dtype_coordinates": 40, "class:point_spelling_python": 150, "class:point_spelling_zero_d": 150, "class:invalid_value_among_undefined": 15, "class:concurrent_calls": 1500},
     "thorough": {"eval:region": 40000, "eval:longitudes": 40000, "eval:inside": 40000, "eval:rejection": 3000, "distinct_nontrivial": 20000},
 }
 JOBS = {"quick": 1, "thorough": 16}
@@ -46,8 +46,8 @@ AMBIENT_FILES = ['test_coordinates.py']
 
 def plan(tier):
     if tier == "quick":
-        return collections.OrderedDict(lattice=len(LATTICE), random=60, invalid=30, forms=20)
-    return collections.OrderedDict(lattice=len(LATTICE), half_lattice=len(LATTICE), random=2500, invalid=600, forms=300, ambient=1)
+        return collections.OrderedDict(lattice=len(LATTICE), random=60, invalid=30, forms=20, threads=4)
+    return collections.OrderedDict(lattice=len(LATTICE), half_lattice=len(LATTICE), random=2500, invalid=600, forms=300, threads=80, ambient=1)
 
 
 # ----------------------------------------------------------------------
@@ -347,6 +347,31 @@ def run_case(run, tap, stream, index, rng):
                     pass
             run.count("class:invalid_repeated")
             run.mark_nontrivial("invalid", kind, region, lon, lat)
+    elif stream == "threads":
+        # concurrent calls with different regions (thread pool, dask threaded scheduler): each call is judged on its own by the
+        # monitor; work arrays kept at module level would hand one call another call's bounds
+        from .. import core as _core
+
+        nthreads = int(rng.choice([2, 3, 4]))
+        regions = [(350.0, 10.0), (170.0, -170.0), (-20.0, 40.0), (10.0, 300.0), (0.0, 360.0), (-180.0, 180.0), (-35.0, 325.0), (200.0, 250.0), (-90.0, 0.0), (355.0, 5.0)]
+        jobs = []
+        for k in range(nthreads):
+            sub = np.random.default_rng(int(rng.integers(0, 2 ** 31)))
+            mine = [regions[int(j)] for j in sub.permutation(len(regions))[:4]]
+            lons = sub.uniform(-180, 360, int(sub.choice([3, 40, 5000])))
+            lats = sub.uniform(-80, 80, lons.size)
+
+            def job(mine=mine, lons=lons, lats=lats):
+                for w, e in mine:
+                    vd.longitude_continuity(None, (w, e, -30.0, 30.0))
+                    vd.longitude_continuity((lons, lats), [w, e, -45.0, 45.0])
+            jobs.append(job)
+        for res, exc in _core.run_threads(jobs, rounds=60):
+            if isinstance(exc, TimeoutError):
+                run.note_inconclusive("threads: %r" % (exc,))
+            elif exc is not None:
+                run.violation("threads", "longitude_continuity raised %r when called concurrently from %d threads" % (exc, nthreads), {}, key="threads-raised")
+        run.count("class:concurrent_calls", len(jobs) * 60 * 8)
     elif stream == "forms":
         only = None
         for _ in range(4):
